@@ -296,6 +296,12 @@ def programs(level):
             out.append([("while", c_out, mx_out, [("while", "i!=n", 2, [LA[0]], None), LA[1]], "b")])
             out.append([("while", c_out, mx_out, [("for", 2, [LA[1]], False), LA[0]], None)])
             out.append([("for", mx_out, [("while", "x<y", 2, [LA[1]], None), LA[0]], False)])
+    # --- long loops (beyond any fixed number of iterations a cache / refresh / batching scheme might assume)
+    for mx in (70,) if level == 0 else (70, 130):
+        for a in (("assign", "w", "w+F"), ("assign", "x", "x+1"), ("assign", "l0", "l0+1"), ("assign", "k", "k+1")):
+            out.append([("for", mx, [a], False)])
+            out.append([("while", "i!=n", mx, [a], "b")])
+        out.append([("while", "i!=n", mx, [("assign", "w", "w+F"), ("if", [("b", [("assign", "x", "x+1")])], None)], None)])
     if level >= 1:
         # nesting 2: if in if, loop in if, if in loop, loop in loop
         inner_ifs = [("if", [(c, [a])], e) for c in ("x<y", "b", "x==1") for a in A4[:2] for e in (None, [A[4]])]
